@@ -81,6 +81,11 @@ def driver_tu(records):
              'template value* value::create_value<true>(const void*, value_length_type, value_align_type);',
              'template value* value::create_value<false>(const void*, value_length_type, value_align_type);',
              'template status put<char*>(Token, tree_instance*, std::string_view, char**, bool, value_length_type, char***, value_align_type, inserted_node_info*);',
+             '// by-name wrappers (C13)',
+             'template status get<char>(std::string_view, std::string_view, std::pair<char*, std::size_t>&, std::pair<node_version64_body, node_version64*>*);',
+             'template status put<char>(Token, std::string_view, std::string_view, char*, std::size_t, char**, value_align_type, bool, inserted_node_info*);',
+             'template status put<char>(Token, std::string_view, std::string_view, char*, std::size_t, char**, value_align_type, bool, node_version64**);',
+             'template status scan<char>(std::string_view, std::string_view, scan_endpoint, std::string_view, scan_endpoint, std::vector<std::tuple<std::string, char*, std::size_t>>&, std::vector<std::pair<node_version64_body, node_version64*>>*, std::size_t, bool);',
              'enum y_layout : std::size_t {']
     for r in records:
         lines.append(f'  y_sizeof_{r.replace("::", "__")} = sizeof({r}), y_alignof_{r.replace("::", "__")} = alignof({r}),')
